@@ -162,3 +162,18 @@ def register(reg):
                            "len(self._headers) <= _i"],
                    "modifies": ["self._headers", "self._set", "self._pos"]}},
     )
+    _register_parse_set_header(reg)
+
+
+def _register_parse_set_header(reg):
+    """parse_set_header: the HeaderSet handed out (response.vary / allow / content_language ...) is live -- it carries the
+    caller's write-back callback, for an absent / empty header too -- satisfies the set's invariant and holds every item of
+    the header (HeaderSet.__init__'s contract; parse_list_header's own contract: C06 / C07)"""
+    HS = reg.models["HeaderSet"]
+    reg.contract(
+        "werkzeug/http.py:parse_set_header", prop="C16,C08",
+        params={"value": "Optional[str]", "on_update": "Optional[opaque:callback]"}, returns=HS,
+        ensures=["result.on_update == on_update", "I_hs(result)",
+                 "implies(value is None or len(value) == 0, len(result._headers) == 0)"],
+        raises={},
+    )
